@@ -34,8 +34,11 @@ through which arrays and objects the Go code gets there, in the style of `Model/
   generated yet the first call creates them — the block's private lazily-filled cache, see `Model/BlockCache.lean`
   — the model starts after that).
 * Go panics (index out of range, nil dereference) are totalised the way the value-level models do: a read outside a
-  slice yields a pointer to a fresh all-zero hash object resp. byte 0.  None of them can happen on the paths taken
-  by the Go code (every index is guarded, see the comments at the definitions).
+  slice yields a pointer to a fresh all-zero hash object resp. byte 0.  On the paths taken by the Go code every index
+  is guarded (see the comments at the definitions) with THREE exceptions, where Go panics and the theorems below speak
+  about the totalised value only: a block with ZERO transactions in the builders (`allHashes[0]`, proved to fault in
+  `Props/C08Builders.lean: builder_empty_block_faults` — the C11 property is stated for blocks of at least one
+  transaction), and nil entries in a caller-built `msg.Hashes` / `txnSet` (nil pointers are not representable here).
 * Tree arithmetic is on `Nat` as in `Model/Merkle.lean`.
 Core Lean only.
 -/
